@@ -105,6 +105,19 @@ def values_params():
             elif not rec_list and not rec_dict and 'deserialize_value' not in _dump(ast.Module(body=fn.body, type_ignores=[])):
                 out['deser'] = 'DShallow'
     tasks = _src('tasks.py')
+    gs = _find(tasks, '_task__getstate__')
+    out['getstate'] = 'GSUnknown'
+    if gs is not None:
+        assigns = [n for n in gs.body if isinstance(n, ast.Assign) and ast.unparse(n.targets[0]) == 'state']
+        if len(assigns) == 1 and isinstance(assigns[0].value, ast.Dict) and isinstance(gs.body[-1], ast.Return) and ast.unparse(gs.body[-1].value) == 'state' and len(gs.body) == 2:
+            dct = assigns[0].value
+            keys = [k.value if isinstance(k, ast.Constant) else None for k in dct.keys]
+            spread = [ast.unparse(v) for k, v in zip(dct.keys, dct.values) if k is None]
+            if (sorted(k for k in keys if k) == ['_is_task', '_lt', '_results_map', 'cache_key']
+                    and spread == ['{f.name: getattr(self, f.name) for f in fields(self)}']):
+                out['getstate'] = 'GSWhitelist'
+        elif 'vars(self)' in ast.unparse(gs) or '__dict__' in ast.unparse(gs):
+            out['getstate'] = 'GSVars'
     fn = _find(tasks, '_task__setstate__')
     if fn is not None:
         d = _dump(fn)
@@ -354,7 +367,8 @@ def render():
     ]
     vp = values_params()
     lines += ['Definition deser_mode_src : deser_mode := %(deser)s.' % vp,
-              'Definition setstate_mode_src : setstate_mode := %(setstate)s.' % vp]
+              'Definition setstate_mode_src : setstate_mode := %(setstate)s.' % vp,
+              'Definition getstate_mode_src : getstate_mode := %(getstate)s.' % vp]
     ipar = intr_params()
     lines += ['Definition gen_mode_src : gen_mode := %(gen)s.' % ipar,
               'Definition drain_swallows_src : bool := %(drain)s.' % ipar,
